@@ -2,7 +2,7 @@ from rpc_common import *  # noqa
 import rpc_common as rc
 
 ID = "C07"
-LEVEL = "other"
+LEVEL = "proof"
 COQ_TARGETS = ["Props/Properties_C07.vo"] + rc.COQ_COMMON
 PROPS_FILES = ["Props/Properties_C07.v"]
 RUNS = [rc.run("rpc", "s,v", salt=7)]
@@ -25,16 +25,23 @@ def violates(run, case, impl, model):
     return rel(im) != rel(mm) or descs(im) != descs(mm) or iv != mv
 
 
-LEVEL_TEXT = ("Other (history-level proof of export_count + proofs of the import / close primitives + differential run): "
-              "proved for ALL histories of the machine of rpc.Conn -- while the connection is up, for every export id: entry "
-              "present -> wireRefs = sent - released > 0, entry absent -> sent = released, and free ids name empty slots "
-              "(C07_export_count; sent is bumped exactly where a senderHosted descriptor is written, released by the count of "
-              "every successful releaseExport: Release, Finish.releaseResultCaps, Return.releaseParamCaps after F19; "
-              "over-release is refused without change). importClient.Shutdown of the current generation sends exactly one "
-              "Release carrying the references received and removes the entry, other generations send nothing, addImport counts "
-              "one per descriptor, a re-created client never shares a generation (F20 refuted on the pre-fix machine); Close "
-              "succeeds from any state and empties all tables. NOT proved at history level: import_release (one Release per "
-              "generation when the last local reference goes) and close_releases_all with the client reference counters; these "
-              "are covered by the differential run (Release messages, descriptor ids, exports / wire refs / imports after every "
-              "event, Shutdown count of every instrumented capability at the end). Found and repaired: F19, F20, F22.")
-LEVEL_NOTE = "See coq/Props/Properties_C07.v for the full statements and what is missing at each theorem."
+LEVEL_TEXT = ("Proof (all three T1 theorems at history level; the T2 variant under the fine-grained interleaving of "
+              "importClient.Shutdown is covered by window histories of the differential run only): for ALL histories of the "
+              "machine of rpc.Conn -- export_count: while the connection is up every export entry has wireRefs = sent - released "
+              "> 0 and absent entries have sent = released, free ids name empty slots (C07_export_count; sent is bumped exactly "
+              "where a senderHosted descriptor is written, released by every successful releaseExport: Release, "
+              "Finish(releaseResultCaps), Return(releaseParamCaps)); import_release: with a ghost counter of the descriptors "
+              "received per import id, the referenceCounts of all Release messages for the id plus the wireRefs of its entry equal "
+              "the descriptors received, entries have wireRefs > 0, a Release is sent exactly when the entry's current client "
+              "shuts down and carries the entry's wireRefs, and that is the step in which the last local reference goes "
+              "(C07_import_release, C07_import_release_exact, C07_release_at_last_ref; generations never reused: F20); "
+              "close_releases_all: the reference count of every local server equals, at every step, what the tables hold "
+              "(bootstrap, exports, answers' arguments and results, handles, embargoes; every embargo counts the handles naming "
+              "it), and after Close / Abort the tables are empty and the count equals the handles still resolved to the server, 0 "
+              "when none is left (C07_close_releases_all, through every handler, shutdown and the handlers of a shut-down "
+              "connection). Tied to rpc/*.go by the differential run (Release tokens, descriptor lists, table occupancy, "
+              "Shutdown count 1 of every instrumented server at the end of every history) incl. window histories (re-import "
+              "while a Release is being written). Found and repaired: F19, F20, F22.")
+LEVEL_NOTE = ("import_release is a per-import-id balance (a re-import that finds the entry of a client whose Shutdown is postponed takes "
+              "the entry over with its wireRefs, as import.go does); the statements are for cfg_fixed and histories within the "
+              "id bound and the environment assumption env_ok. See coq/Props/Properties_C07.v.")
